@@ -417,3 +417,106 @@ def compareCaching (S : Sem D V R) (h : Heap D) (d x : Ref) : Option (R × Heap 
   | _, _, _ => none
 
 end Frouros.Heap
+
+/-!
+  ## Appended for `FrourosProofs/Props/C16c.lean` (nothing above is changed)
+
+  * `View` / `view`: the observable projection of a streaming detector, read THROUGH its references
+    (so that it does not depend on allocation addresses);
+  * `updatePre`: VARIANT of `update` running the history callbacks BEFORE `_update`
+    (DESIGN Appendix B mutant "appending before `_update`");
+  * `onUpdateEndMeddling` / `updateMeddling`: VARIANT streaming callback that WRITES the detector it
+    points back to (no such callback exists in frouros: the falsifying variant of transparency);
+  * `drawUpdate`, `GOp`, `applyGen`, `applyGenTo`: a designated `data` cell for NumPy's GLOBAL generator
+    (`np.random.*` without a `Generator` object: KSWIN `_update` -> `np.random.choice`,
+    `.../window_based/kswin.py`; `utils/stats.py:248` `np.random.seed`), read and advanced by `draw` operations.
+-/
+namespace Frouros.Heap
+
+variable {D V R : Type}
+
+/-- what a caller can observe of a streaming detector: its scalar attributes, the contents of its own
+containers, the parameters of its own model (`none`: no model; `some none`: dangling), and for every
+callback of its list, in order, the recorded entries (`none`: not a callback object) -/
+structure View (D : Type) where
+  own : D
+  vars : D
+  model : Option (Option D)
+  hists : List (Option (List D))
+  deriving DecidableEq, Repr
+
+/-- the projection (`none`: `d` is not a well-formed detector object) -/
+def view (h : Heap D) (d : Ref) : Option (View D) :=
+  match getDet h d with
+  | none => none
+  | some x =>
+    match getData h x.vars, getList h x.callbacks with
+    | some vd, some items =>
+      some ⟨x.own, vd, x.model.map (getData h), items.map (fun c => (getCb h c).map (·.hist))⟩
+    | _, _ => none
+
+/-- VARIANT of `update`: `on_update_end` of every callback runs BEFORE `_update` (the entry recorded is a
+snapshot of the state BEFORE the update) -/
+def updatePre (S : Sem D V R) (h : Heap D) (d : Ref) (v : V) : Option (Heap D) :=
+  match callbacksOf h d with
+  | none => none
+  | some items =>
+  match forEach (onUpdateEnd S v) h items with
+  | none => none
+  | some h1 => updateCore S h1 d v
+
+/-- VARIANT callback method: records like `HistoryConceptDrift.on_update_end`, then REBINDS the scalar
+attributes of the detector it points back to (to the entry just recorded) -/
+def onUpdateEndMeddling (S : Sem D V R) (v : V) (h : Heap D) (c : Ref) : Option (Heap D) :=
+  match getCb h c with
+  | none => none
+  | some cb =>
+  match cb.detector with
+  | none => none
+  | some det =>
+  match getDet h det with
+  | none => none
+  | some x =>
+  match getData h x.vars with
+  | none => none
+  | some vd =>
+    some (write (write h c (.callback { cb with hist := cb.hist ++ [S.snap x.own vd v] }))
+      det (.detector { x with own := S.snap x.own vd v }))
+
+/-- VARIANT of `update` with the meddling callback method -/
+def updateMeddling (S : Sem D V R) (h : Heap D) (d : Ref) (v : V) : Option (Heap D) :=
+  match callbacksOf h d with
+  | none => none
+  | some items =>
+  match updateCore S h d v with
+  | none => none
+  | some h1 => forEach (onUpdateEndMeddling S v) h1 items
+
+/-- `update(value)` of a detector whose `_update` DRAWS from NumPy's global generator: `g` is the cell of
+the generator state (shared by the whole process), `adv` the state transition of one draw, `mix s v`
+what `_update` effectively works on when the generator state was `s`.  The draw comes first. -/
+def drawUpdate (S : Sem D V R) (adv : D → D) (mix : D → V → V) (g : Ref) (h : Heap D) (d : Ref) (v : V) :
+    Option (Heap D) :=
+  match getData h g with
+  | none => none
+  | some s => update S (write h g (.data (adv s))) d (mix s v)
+
+/-- operations of a history in the presence of the global generator -/
+inductive GOp (V : Type) where
+  /-- an `update` that does not draw -/
+  | update (v : V)
+  /-- an `update` that draws (KSWIN-like) -/
+  | draw (v : V)
+  | reset
+
+def applyGen (S : Sem D V R) (adv : D → D) (mix : D → V → V) (g d : Ref) (h : Heap D) : GOp V → Option (Heap D)
+  | .update v => update S h d v
+  | .draw v => drawUpdate S adv mix g h d v
+  | .reset => reset S h d
+
+/-- addressed to the first (`false`) or second (`true`) of two detectors -/
+def applyGenTo (S : Sem D V R) (adv : D → D) (mix : D → V → V) (g d1 d2 : Ref) (h : Heap D) (e : Bool × GOp V) :
+    Option (Heap D) :=
+  applyGen S adv mix g (if e.1 then d2 else d1) h e.2
+
+end Frouros.Heap
